@@ -13,7 +13,7 @@ func init() {
 	register("C07", "R3", 2, "cached certificates are re-verified: a cache hit is returned only after Leaf.Verify (name, chain to the configured roots, current time) succeeded", c07r3)
 	register("C07", "R4", 1, "leaf template shape: IP literal ⇒ IPAddresses, otherwise DNSNames - always one of them; validity window [now-validity, now+validity]; signed by the configured CA key; chain is leaf then CA", c07r4)
 	register("C07", "R5", 4, "MITM decision: no MITM without a configuration; the filter (mitm-domains matched on URL.Hostname()) decides when present; excluded hosts take the tunnel path", c07r5)
-	register("C07", "R6", 2, "origin verification is never switched off by code: InsecureSkipVerify is set only under the explicit insecure option; requests of an intercepted session use the same round tripper as any other", c07r6)
+	register("C07", "R6", 3, "origin verification is never switched off by code: InsecureSkipVerify is set only under the explicit insecure option; requests of an intercepted session use the same round tripper as any other", c07r6)
 }
 
 const lruGet = "(*github.com/elastic/go-freelru.ShardedLRU[K, V]).Get($0.certs.ShardedLRU, "
@@ -306,6 +306,17 @@ func c07r6(r *R) {
 	if n == 0 {
 		r.bad("InsecureSkipVerify#site", r.fn(".", "NewHTTPTransport").Pos(), "the insecure option is no longer wired (rule must follow the code)")
 	}
+	// the transport's TLS configuration is never handed out for modification
+	ct := r.method(mpkg, "Proxy", "clientTLSConfig")
+	cps, _ := enumPaths(ct, 16, 1)
+	var cwhy []string
+	for _, p := range cps {
+		v := p.Ret[0]
+		if !(strings.HasPrefix(v, "(*crypto/tls.Config).Clone(") || strings.HasPrefix(v, "local:complit")) {
+			cwhy = append(cwhy, "returns "+v)
+		}
+	}
+	r.check(len(cps) >= 2 && len(cwhy) == 0, "Proxy.clientTLSConfig#fresh", ct.Pos(), "a clone of the transport's TLS config or a fresh one", "clientTLSConfig hands out the transport's own *tls.Config ("+strings.Join(cwhy, "; ")+"): the upstream dialler writes ServerName into it, after which origin certificates are verified against the upstream proxy's name")
 	// the only RoundTrip in the request path is p.rt
 	rt := r.method(mpkg, "Proxy", "roundTrip")
 	cnt := 0
